@@ -351,8 +351,8 @@ impl<'a> Cmp<'a> {
 impl<'a> Cmp<'a> {
     /// Nets consumed by an FF (D, clock, reset), a RAM port or an output port must be driven by
     /// something after the AIG pass: an `Undriven` one means the pass deleted its logic cone.
-    /// `dangling <tag> rams=<number of RAM blocks>` → number of such nets in the cones of data sinks (outputs, FF D) / FF clock+reset pins /
-    /// RAM pins; oracle: all 0; the model has no say (`?`).
+    /// `dangling <tag> rams=<number of RAM blocks>` → number of such nets in the cones of FF clock+reset pins / RAM pins /
+    /// (RAM designs only) data sinks; oracle: all 0; the model has no say (`?`).
     pub fn dangling(&mut self, tag: &str, g: &GateModule) {
         let mut ffctl = vec![];
         for ff in &g.ffs {
@@ -380,12 +380,16 @@ impl<'a> Cmp<'a> {
             }
             bad
         };
-        let (d, f, r) = (count(gate_sinks(g)), count(ffctl), count(ram));
+        // An undriven net in a DATA cone can predate the AIG pass (a register that is never written has no FF
+        // and its net no driver, with or without the feature), so data cones are only reported for designs
+        // with RAM blocks, where they are the RAM read-data nets whose `RamRead` driver the pass resets.
+        let d = if g.ram_blocks.is_empty() { 0 } else { count(gate_sinks(g)) };
+        let (f, r) = (count(ffctl), count(ram));
         bump(&mut self.hist, &format!("dangling.{tag}.{}", if d + f + r == 0 { "none" } else { "some" }));
         self.log.push3(
             format!("dangling {tag} rams={}", g.ram_blocks.len()),
-            format!("data={d} ffctl={f} ram={r}"),
-            "data=0 ffctl=0 ram=0".into(),
+            format!("ffctl={f} rampins={r} ramdata={d}"),
+            "ffctl=0 rampins=0 ramdata=0".into(),
         );
     }
 
